@@ -242,6 +242,33 @@ def check_case(ctx, case):
                 # the repeat is itself an operation of the history
                 dops.append(dict(dop))
                 results.append((dict(op, _repeat=True), r2, states_of(b), False))
+        # (3) from_state: the operation starts from exactly the given state for the named nodes (the others: zero
+        # under reset=True, their current state otherwise) - i.e. it gives what overwriting those states by hand and
+        # running the plain operation gives. Nodes with hidden memory (K4) are left to the model comparison.
+        if flag is None and fs is not None and not failed and not hidden and op["op"] != "reset":
+            saved = states_of(b)
+            try:
+                for nd, i in b.idx.items():
+                    st = before[i]
+                    if nd in b.mnodes or case["single"]:
+                        if i in fs:
+                            st = np.array(fs[i], dtype=float)
+                        elif op["reset"]:
+                            st = np.zeros_like(before[i])
+                    nd.reset(to_state=np.asarray(st, dtype=float).reshape(1, -1))
+                plain = {k: v for k, v in op.items() if k != "fail_step"}
+                plain.update(from_state=False, reset=False, stateful=False)
+                r3 = exec_op(b, case, plain, X, None, ts, None)
+                for i in r[1]:
+                    if not np.array_equal(r[1][i], r3[1][i]):
+                        flag = ("from_state", f"{op['op']}(from_state=..., reset={op['reset']}) did not start from the given state: the output of "
+                                              f"{b.name_of[i]} differs from the one obtained by overwriting the named states by hand and running the "
+                                              f"plain operation (first rows {r[1][i][0].tolist()} vs {r3[1][i][0].tolist()})")
+                        break
+            finally:
+                for nd, i in b.idx.items():
+                    nd.reset(to_state=saved[i].reshape(1, -1))
+            ctx.stat("from_state oracle evaluated" + ("/reset" if op["reset"] else ""))
         if flag:
             oracle_flags.append(flag)
         if flag and flag[0] == "state":
@@ -274,7 +301,7 @@ def check_case(ctx, case):
         if kind == "repeat" and hidden and corr_bad is None and K4 in common.open_findings("C08"):
             ctx.known(K4, f"hidden memory ({', '.join(sorted(set(hidden)))}) survives stateful=False: " + what)
         else:
-            ctx.violation(what, case, obligation=ob)
+            ctx.violation(what, case, obligation=ob, extra={"model_comparison": corr_bad})
             return
     if corr_bad is not None:
         ctx.violation("implementation disagrees with RpyModel.Dataflow: " + corr_bad + "; the direct checks (state unchanged, repeat "
